@@ -86,14 +86,14 @@ def mcs_norm(n):
     return None if 'crash' in n else [n['m'], n['c'], n['s']]
 
 
-def legacy_verdicts(jr, tr):
+def legacy_verdicts(jr, tr, t):
     """What the loop is expected to do per row if the ONLY deviation is 'pattern evaluated as expression'
     (and, second element, additionally 'tag regex error skips the rule')."""
     o = tr.get('oracle')
     if not o:
         return None, None
     v1, v2 = [], []
-    for r, d, e, dl in zip(jr['rules'], tr['direct'], o['expr'], o['dyn']):
+    for r, d, e, dl in zip(jr['rules'], legacy_direct(jr, t, tr), o['expr'], o['dyn']):
         v = (e == 'T') if looks_like_expression(r['pattern']) else d
         v1.append(v)
         v2.append(v and not any(x[1] == 'reerr' for x in dl))
@@ -153,12 +153,12 @@ def judge_base(c, jr, ti):
             out.append(('aborted', {'why': 'an exception escapes normalize_merchant (legacy loop): classification aborted',
                                     'exception': n['crash']}, None))
             return out
-        e = first_cat(jr['rules'], tr['direct'])
+        e = first_cat(jr['rules'], legacy_direct(jr, c['txns'][ti], tr))
         want = ['?', 'Unknown', 'Unknown'] if e is None else [jr['rules'][e][k] for k in ('merchant', 'category', 'subcategory')]
         got = mcs_norm(n)
         if (e is None and got[1:] != want[1:]) or (e is not None and got != want):
             sig = None
-            v1, v2 = legacy_verdicts(jr, tr)
+            v1, v2 = legacy_verdicts(jr, tr, t)
             if v1 is not None:
                 for vs, s in ((v1, SIG_F1), (v2, SIG_TAGERR)):
                     e2 = first_cat(jr['rules'], vs)
@@ -208,12 +208,12 @@ def variants(ci, c, jr, rnd=None):
             if 'crash' in n:
                 continue
             f = c['file']
-            nonm = [i for i, d in enumerate(tr['direct']) if not d]
+            nonm = [i for i, d in enumerate(legacy_direct(jr, c['txns'][ti], tr)) if not d]
             if nonm:
                 g = dict(f, rows=[r for i, r in enumerate(f['rows']) if i not in nonm])
                 if g['rows']:
                     reqs.append({'ci': ci, 'ti': ti, 'tag': 'delete', 'deleted': nonm, 'case': {'kind': 'csv', 'file': g, 'txns': [t]}})
-            e = first_cat(jr['rules'], tr['direct'])
+            e = first_cat(jr['rules'], legacy_direct(jr, c['txns'][ti], tr))
             if e is not None:
                 extra = gen_csv_file(rnd, rnd.choice([1, 2]))['rows']
                 g = dict(f, rows=f['rows'][:e + 1] + extra)
@@ -274,7 +274,7 @@ def judge_variant(c, jr, req, vr):
             if judge_base(c, jr, ti):
                 return out
             if mcs_norm(nb) != mcs_norm(nv):
-                e = first_cat(jr['rules'], tr['direct'])
+                e = first_cat(jr['rules'], legacy_direct(jr, c['txns'][ti], tr))
                 sig = SIG_F1 if any(looks_like_expression(r['pattern']) for r in jr['rules'][:e + 1]) else None
                 out.append(('append', {'why': 'legacy m/c/s changed after appending rows behind the winner', 'base': mcs_norm(nb),
                                        'variant': mcs_norm(nv)}, sig))
@@ -465,8 +465,8 @@ def main(tier):
                 if 'crash' in n:
                     hist_add(out_hist, 'csv:raises')
                     continue
-                k = sum(tr['direct'])
-                e = first_cat(jr['rules'], tr['direct'])
+                k = sum(legacy_direct(jr, t, tr))
+                e = first_cat(jr['rules'], legacy_direct(jr, t, tr))
                 hist_add(out_hist, 'csv:' + ('matched' if n['c'] != 'Unknown' else 'unknown'))
                 hist_add(win_hist, 'csv:' + str(e))
                 hist_add(nm_hist, 'csv:' + str(k))
